@@ -441,8 +441,67 @@ def job_docs(jc):
     jc.expect_reached("ok")
 
 
+RAW_SOURCES = {
+    "plain": '<svg xmlns="http://www.w3.org/2000/svg" viewBox="10 20 200 100" width="200" height="100" enable-background="new"><defs><linearGradient id="a"><stop offset="0" stop-color="red"/></linearGradient></defs><rect x="1" y="2" width="30" height="40" fill="url(#a)"/><g transform="translate(3 4)"><circle cx="5" cy="6" r="7"/></g></svg>',
+    "square": '<svg xmlns="http://www.w3.org/2000/svg" viewBox="0 0 128 128"><path d="M1,1 L9,1 L9,9 Z" fill="blue"/></svg>',
+}
+
+
+def replay_raw(inp):
+    return None
+
+
+def job_rawsvg(jc):
+    """untouchedsvg: svg._rawsvg_docs wraps the unmodified source in <g id="glyphN" transform=placement>."""
+    from picosvg.svg import SVG
+    from nanoemoji.color_glyph import ColorGlyph
+
+    jc.encode(SVGMOD._rawsvg_docs, SVGMOD._svg_matrix)
+    name = jc.params["source"]
+    text = RAW_SOURCES[name]
+    src_root = etree.fromstring(text)
+    vb = tuple(float(v) for v in src_root.attrib["viewBox"].split())
+    inp = {"source": name}
+
+    def body():
+        asc, desc, width = core.integer("asc", 0, 4000), core.integer("desc", -4000, 0), core.integer("width", 0, 8000)
+        core.assume(asc - desc >= 16)
+        U = Affine2D(1, 0, 0, 1, core.real("ux", -500, 500), core.real("uy", -500, 500))
+        ufo = type("U", (), {"info": type("I", (), {"ascender": asc, "descender": desc, "familyName": "f"})(), "__getitem__": lambda self, k: type("G", (), {"width": width})()})()
+        cg = ColorGlyph(ufo, "f.svg", "", "g", 7, (65,), None, SVG.fromstring(text), U, None)
+        cfg = type("Cfg", (), {"pretty_print": False})()
+        docs = SVGMOD._rawsvg_docs(cfg, None, (cg,))
+        want = C01.otsvg_spec(vb, asc, desc, width, tuple(U))
+        return docs, want
+
+    with shims.installed(shims.std_shims() + shims.numeric_shims("nanoemoji.svg", "nanoemoji.color_glyph")):
+        results = jc.explore(body, round_mode="identity", catch=(ValueError, AssertionError))
+    for r in results:
+        if r.exc is not None:
+            jc.inconclusive.append(f"_rawsvg_docs raised {r.exc!r}")
+            continue
+        docs, want = r.value
+        jc.reach(r, "ok")
+        ok = len(docs) == 1 and docs[0][1] == 7 and docs[0][2] == 7
+        conj = [z3.BoolVal(ok)]
+        if ok:
+            root = etree.fromstring(docs[0][0].encode("utf-8"))
+            gs = [el for el in root.iter() if isinstance(el.tag, str) and el.attrib.get("id") == "glyph7"]
+            struct = len(gs) == 1 and gs[0].getparent() is root and len(root) == 1 and not ({"viewBox", "width", "height", "enable-background"} & set(root.attrib))
+            if struct:
+                kids = [(etree.QName(c).localname, dict(c.attrib)) for c in gs[0]]
+                struct = kids == [(etree.QName(c).localname, dict(c.attrib)) for c in src_root]
+                got = svs.parse_transform(gs[0].attrib.get("transform"), r.tokens)
+                conj.append(ps.aff_eq(got, want))
+            conj.append(z3.BoolVal(struct))
+        jc.prove(r, z3.And(*conj), "untouched SVG: one document for the glyph id, exactly one element glyph<ID> wrapping the unmodified source content, placed by the OT-SVG placement spec",
+                 inp, replay_raw, key=f"C02:rawsvg:{name}")
+    jc.expect_reached("ok")
+
+
 def jobs(tier):
     js = [Job(f"place[otsvg,{u}]", C01.job_place, which="otsvg", user=u) for u in ("identity", "translate", "general")]
+    js += [Job(f"rawsvg[{n}]", job_rawsvg, source=n) for n in RAW_SOURCES]
     for s in SCENARIOS:
         reuse = s.startswith("reuse")
         kinds = ("translation",)
